@@ -615,7 +615,7 @@ Section Toks.
       + apply no_adj_cons; [|exact I2]. cbn [is_ttext andb]. apply I3.
         destruct r as [|k' r']; [exact I | exact HS].
       + intros H. discriminate H.
-    - destruct (Hk eq_refl) as [K1 [K2 [K3 [l [x [El Hx]]]]]]; [reflexivity|].
+    - destruct (Hk eq_refl) as [K1 [K2 K3']]. unfold node_toks_ok in K3'. destruct (K3' EK) as [K3 [l [x [El Hx]]]].
       assert (HA' : no_adjacent_text false r = true) by (eapply no_adj_weaken; exact HA).
       destruct (IH HNr HTr HA') as [I1 [I2 _]]. split; [|split].
       + apply Forall_app. split; assumption.
@@ -623,3 +623,94 @@ Section Toks.
       + intros _. destruct (toks_node pm k) as [|a t'] eqn:Et; [destruct l; discriminate El|]. cbn [app]. exact K3.
   Qed.
 End Toks.
+
+Lemma clean_tag_inv ns name attrs kids : clean (Tag ns name attrs kids) = true ->
+  no_adjacent_text false kids = true
+  /\ Forall (fun k => clean k = true /\ is_empty_text k = false) kids.
+Proof.
+  unfold clean. cbn [merged no_empty]. intros H. apply andb_prop in H. destruct H as [H1 H2].
+  apply andb_prop in H1. destruct H1 as [H1 H3]. split; [exact H1|].
+  apply Forall_forall. intros k Hk. rewrite forallb_forall in H2, H3. specialize (H2 k Hk). specialize (H3 k Hk).
+  apply andb_prop in H2. destruct H2 as [H2 H4]. apply negb_true_iff in H2. rewrite H3, H4. split; [reflexivity | exact H2].
+Qed.
+
+Section ToksTree.
+  Variable pm : pmap.
+  Hypothesis PF : pm_facts pm.
+  Hypothesis URI : forall n, In n (dict_keys pm) -> uri_ok n.
+
+  Lemma kids_premises kids :
+    Forall wf_node kids -> Forall (fun k => clean k = true /\ is_empty_text k = false) kids ->
+    Forall (fun k => wf_node k -> clean k = true -> (forall x, In x (tree_nss k) -> In x (dict_keys pm)) ->
+                     is_text k = false -> node_toks_ok pm k) kids ->
+    (forall k x, In k kids -> In x (tree_nss k) -> In x (dict_keys pm)) ->
+    Forall (fun k => is_text k = false -> node_toks_ok pm k) kids
+    /\ Forall (fun k => match k with Text s => s <> [] /\ Forall text_char_ok s | _ => True end) kids.
+  Proof.
+    intros HW HC HI HK. split; apply Forall_forall; intros k Hk; rewrite Forall_forall in HW, HC, HI.
+    - intros Ht. destruct (HC k Hk) as [C1 _]. apply (HI k Hk (HW k Hk) C1); [|exact Ht]. intros x Hx. exact (HK k x Hk Hx).
+    - destruct k as [| s | |]; try exact I. destruct (HC _ Hk) as [_ C2]. split; [|exact (HW _ Hk)].
+      intros ->. discriminate C2.
+  Qed.
+
+  Lemma tag_toks_ok q ta kids :
+    is_name q = true -> Forall (fun kv : str * str => is_name (fst kv) = true /\ Forall attr_char_ok (snd kv)) ta ->
+    Forall tok_ok (toks_kids pm kids) -> no_adj_ttext (toks_kids pm kids) ->
+    let toks := if null kids then [TStart q ta true] else TStart q ta false :: toks_kids pm kids ++ [TEnd q] in
+    Forall tok_ok toks /\ no_adj_ttext toks
+    /\ starts_ttext toks = false /\ exists l x, toks = l ++ [x] /\ is_ttext x = false.
+  Proof.
+    intros Hq Ha HT HA. destruct kids as [|k0 r]; cbn [null]; cbv zeta iota.
+    - split; [constructor; [split; assumption | constructor]|]. split; [exact I|]. split; [reflexivity|].
+      exists [], (TStart q ta true). split; reflexivity.
+    - split; [|split; [|split]].
+      + constructor; [split; assumption|]. apply Forall_app. split; [exact HT|]. constructor; [exact Hq | constructor].
+      + apply no_adj_cons; [reflexivity|]. apply no_adj_snoc; [exact HA | reflexivity].
+      + reflexivity.
+      + exists (TStart q ta false :: toks_kids pm (k0 :: r)), (TEnd q). split; reflexivity.
+  Qed.
+
+  Theorem wf_node_toks_ok n : wf_node n -> clean n = true -> (forall x, In x (tree_nss n) -> In x (dict_keys pm)) ->
+    is_text n = false -> node_toks_ok pm n.
+  Proof.
+    induction n as [ns name attrs kids IHk|s|s|tg c] using node_ind'; intros HW HC HK HT; try discriminate.
+    - cbn [wf_node] in HW. destruct HW as [H1 [H2 [H3 [H4 [H5 [H6 H7]]]]]]. apply wf_fix in H7.
+      destruct (clean_tag_inv _ _ _ _ HC) as [C1 C2].
+      destruct (kids_premises kids H7 C2 IHk) as [P1 P2].
+      { intros k x Hk Hx. apply HK. apply tree_nss_tag. right. right. exists k. split; assumption. }
+      destruct (kids_toks_ok pm kids P1 P2 C1) as [K1 [K2 _]].
+      assert (Hq : is_name (qname pm ns name) = true).
+      { apply (qname_is_name pm PF); [apply HK; apply tree_nss_tag; left; reflexivity | exact H1]. }
+      assert (Ha := tok_attrs_ok pm PF attrs H4 (attrs_in_of pm ns name attrs kids HK) H5).
+      destruct (tag_toks_ok _ _ kids Hq Ha K1 K2) as [T1 [T2 [T3 T4]]].
+      unfold node_toks_ok. cbn [toks_node]. rewrite toks_kids_fix. split; [exact T1|]. split; [exact T2|].
+      intros _. split; assumption.
+    - cbn [wf_node] in HW. unfold node_toks_ok. cbn [toks_node]. split; [constructor; [exact HW | constructor]|].
+      split; [exact I|]. intros _. split; [reflexivity|]. exists [], (TComment s). split; reflexivity.
+    - cbn [wf_node] in HW. destruct HW as [H1 [H2 [H3 [H4 H5]]]]. unfold node_toks_ok. cbn [toks_node].
+      assert (Hn : is_name tg = true) by (unfold is_ncname in H1; apply andb_prop in H1; destruct H1; assumption).
+      split; [constructor; [repeat split; assumption | constructor]|].
+      split; [exact I|]. intros _. split; [reflexivity|]. exists [], (TPI tg c). split; reflexivity.
+  Qed.
+
+  Theorem wf_root_toks_ok ns name attrs kids :
+    let t := Tag ns name attrs kids in
+    wf_node t -> clean t = true -> (forall x, In x (tree_nss t) -> In x (dict_keys pm)) ->
+    Forall tok_ok (toks_root pm t) /\ no_adj_ttext (toks_root pm t).
+  Proof.
+    intros t HW HC HK. unfold t in *. cbn [wf_node] in HW. destruct HW as [H1 [H2 [H3 [H4 [H5 [H6 H7]]]]]]. apply wf_fix in H7.
+    destruct (clean_tag_inv _ _ _ _ HC) as [C1 C2].
+    assert (IHk : Forall (fun k => wf_node k -> clean k = true -> (forall x, In x (tree_nss k) -> In x (dict_keys pm)) ->
+                                   is_text k = false -> node_toks_ok pm k) kids).
+    { apply Forall_forall. intros k _. apply wf_node_toks_ok. }
+    destruct (kids_premises kids H7 C2 IHk) as [P1 P2].
+    { intros k x Hk Hx. apply HK. apply tree_nss_tag. right. right. exists k. split; assumption. }
+    destruct (kids_toks_ok pm kids P1 P2 C1) as [K1 [K2 _]].
+    assert (Hq : is_name (qname pm ns name) = true).
+    { apply (qname_is_name pm PF); [apply HK; apply tree_nss_tag; left; reflexivity | exact H1]. }
+    assert (Ha : Forall (fun kv : str * str => is_name (fst kv) = true /\ Forall attr_char_ok (snd kv)) (root_tok_attrs pm attrs)).
+    { unfold root_tok_attrs. apply Forall_app. split; [apply (decl_attrs_ok pm PF URI)|].
+      exact (tok_attrs_ok pm PF attrs H4 (attrs_in_of pm ns name attrs kids HK) H5). }
+    destruct (tag_toks_ok _ _ kids Hq Ha K1 K2) as [T1 [T2 _]]. cbn [toks_root]. split; assumption.
+  Qed.
+End ToksTree.
